@@ -8,8 +8,8 @@ package tlsutils
 //vsym:model github.com/theparanoids/crypki/certreload.NewCertReloader m18NewCertReloader
 //vsym:model crypto/x509.SystemCertPool m18SystemCertPool
 //vsym:replay same-harness
-//vsym:expect-cover C18.config-ok C18.ca-unreadable C18.ca-unparsable C18.reloader-fails C18.no-ca-files
-//vsym:bound H18_config: 0..3 CA files with symbolic 1-byte names, each readable or not and parsable or not; client certificate / key paths symbolic 1-byte names; the certificate reloader fails or not
+//vsym:expect-cover C18.config-ok C18.ca-unreadable C18.ca-unparsable C18.reloader-fails C18.no-ca-files C18.second-config
+//vsym:bound H18_config: 0..3 CA files with symbolic 1-byte names, each readable or not and parsable or not; client certificate / key paths symbolic 1-byte names; the certificate reloader fails or not; after a successful call a second call with the same client key pair and one more CA file
 //vsym:assume file reads, the certificate pool and the client-certificate reloader are logging models; what the resulting tls.Config means during a handshake is crypto/tls's documented contract (RootCAs set => the server chain must verify against exactly that pool and the name must match unless InsecureSkipVerify / VerifyPeerCertificate / VerifyConnection override it; MinVersion bounds the protocol version; GetClientCertificate supplies the client certificate)
 
 import (
@@ -213,4 +213,43 @@ func H18_config() {
 		vReach("C18.no-ca-files")
 	}
 	vReach("C18.config-ok")
+
+	// a second configuration in the same process: same client key pair,
+	// another bundle (one more CA file) - its roots are that bundle
+	extra := vNondetString("second-ca-name", 1)
+	for _, p := range names {
+		vAssume(!vEqString(p, extra))
+	}
+	vAssume(vAnd(!vEqString(extra, w18Cert), !vEqString(extra, w18Key)))
+	w18CAs = append(w18CAs, s18File{name: extra})
+	caPaths2 := append(append([]string(nil), caPaths...), extra)
+	if vIsNative() {
+		dir, _ := os.MkdirTemp("", "vsym-c18b")
+		defer os.RemoveAll(dir)
+		c, _ := n18PEM("ca-second", true)
+		p := filepath.Join(dir, "ca-second.pem")
+		os.WriteFile(p, c, 0o600)
+		caPaths2[len(caPaths2)-1] = p
+	}
+	pools0, appended0 := len(m18Pools), len(m18Appended)
+	cfg2, err2 := TLSClientConfiguration(certPath, keyPath, caPaths2)
+	vAssert(err2 == nil && cfg2 != nil, "C18.second-configuration-built")
+	if err2 != nil || cfg2 == nil {
+		return
+	}
+	vAssert(cfg2.RootCAs != nil && cfg2.RootCAs != cfg.RootCAs, "C18.second-configuration-has-its-own-roots")
+	if cfg2.RootCAs == nil {
+		return
+	}
+	if vIsNative() {
+		vAssert(len(cfg2.RootCAs.Subjects()) == n+1, "C18.second-configuration-roots-are-exactly-its-files")
+		vAssert(len(cfg.RootCAs.Subjects()) == n, "C18.first-configuration-roots-unchanged")
+	} else {
+		vAssert(len(m18Pools) == pools0+1 && cfg2.RootCAs == m18Pools[pools0], "C18.second-configuration-has-its-own-roots")
+		vAssert(len(m18Appended) == appended0+n+1, "C18.second-configuration-roots-are-exactly-its-files")
+		for i := 0; i <= n && appended0+i < len(m18Appended); i++ {
+			vAssert(m18AppendPool[appended0+i] == cfg2.RootCAs && vEqString(m18Appended[appended0+i], "CA:"+caPaths2[i]), "C18.second-configuration-roots-are-exactly-its-files")
+		}
+	}
+	vReach("C18.second-config")
 }
